@@ -139,6 +139,21 @@ func init() {
 		ex.assert(args[0], site, args[1].(string))
 		return nil
 	})
+	reg(verifPkg+".Holds", func(fr *frame, args []value) value {
+		// true iff the condition is implied by the path condition (one query);
+		// does not extend the path condition
+		switch c := args[0].(type) {
+		case bool:
+			return c
+		case sym:
+			if ex.check(sctx.Not(c.e)) == smt.Unsat {
+				ex.Stats.Discharged++
+				return true
+			}
+			return false
+		}
+		return false
+	})
 	reg(verifPkg+".Fail", func(fr *frame, args []value) value {
 		ex.curFrame = fr.caller
 		ex.assert(false, callSite(fr.caller), args[0].(string))
@@ -370,7 +385,7 @@ func init() {
 		reg("math."+name, func(fr *frame, args []value) value {
 			if s, ok := args[0].(sym); ok {
 				if symf == nil {
-					return mkval(sctx.UF("uf_"+name, smt.FP64, s.e), types.Float64)
+					return mkval(sctx.UF("uf_"+name, sctx.FSort(64), s.e), types.Float64)
 				}
 				return mkval(symf(s.e), types.Float64)
 			}
@@ -423,25 +438,25 @@ func init() {
 	reg("math.NaN", func(fr *frame, args []value) value { return math.NaN() })
 	reg("math.Pow", func(fr *frame, args []value) value {
 		if isSym(args[0]) || isSym(args[1]) {
-			return mkval(sctx.UF("uf_Pow", smt.FP64, f64(args[0]), f64(args[1])), types.Float64)
+			return mkval(sctx.UF("uf_Pow", sctx.FSort(64), f64(args[0]), f64(args[1])), types.Float64)
 		}
 		return math.Pow(args[0].(float64), args[1].(float64))
 	})
 	reg("math.Mod", func(fr *frame, args []value) value {
 		if isSym(args[0]) || isSym(args[1]) {
-			return mkval(sctx.UF("uf_Mod", smt.FP64, f64(args[0]), f64(args[1])), types.Float64)
+			return mkval(sctx.UF("uf_Mod", sctx.FSort(64), f64(args[0]), f64(args[1])), types.Float64)
 		}
 		return math.Mod(args[0].(float64), args[1].(float64))
 	})
 	reg("math.Ldexp", func(fr *frame, args []value) value {
 		if isSym(args[0]) || isSym(args[1]) {
-			return mkval(sctx.UF("uf_Ldexp", smt.FP64, f64(args[0]), lift(args[1])), types.Float64)
+			return mkval(sctx.UF("uf_Ldexp", sctx.FSort(64), f64(args[0]), lift(args[1])), types.Float64)
 		}
 		return math.Ldexp(args[0].(float64), args[1].(int))
 	})
 	reg("math.Frexp", func(fr *frame, args []value) value {
 		if isSym(args[0]) {
-			return tuple{mkval(sctx.UF("uf_Frexp_m", smt.FP64, f64(args[0])), types.Float64),
+			return tuple{mkval(sctx.UF("uf_Frexp_m", sctx.FSort(64), f64(args[0])), types.Float64),
 				mkval(sctx.UF("uf_Frexp_e", smt.BV(64), f64(args[0])), types.Int)}
 		}
 		m, e := math.Frexp(args[0].(float64))
@@ -498,6 +513,24 @@ func init() {
 		return nil
 	})
 	reg("sort.SliceStable", externals["sort.Slice"])
+	symSort := func(k types.BasicKind) externalFn {
+		return func(fr *frame, args []value) value {
+			s := args[0].([]value)
+			for i := 1; i < len(s); i++ {
+				for j := i; j > 0; j-- {
+					if !decide(binop(token.LSS, types.Typ[k], s[j], s[j-1])) {
+						break
+					}
+					a, b := s[j], s[j-1]
+					jset(&s[j], b)
+					jset(&s[j-1], a)
+				}
+			}
+			return nil
+		}
+	}
+	reg("sort.Ints", symSort(types.Int))
+	reg("sort.Float64s", symSort(types.Float64))
 	reg("sort.Strings", func(fr *frame, args []value) value {
 		s := args[0].([]value)
 		ss := make([]string, len(s))
